@@ -259,11 +259,12 @@ def generate(seed, tier):
         evs.append({"ev": k, "cached": r.random() < 0.35, "vars": _gen_vars(r)})
     for lid, n, wf in lists:
         if r.random() < 0.7:
-            ops.append(["tag", lid])
+            ops.append(["tag", lid] + ([r.choice(["append", "delete", "replace"])]
+                                       if r.random() < 0.15 else []))
     # S2 history blocks: all tagged[i] of one list by one fresh evaluator
     nextev = nev
     for lid, n, wf in lists:
-        if wf and r.random() < 0.8:
+        if r.random() < (0.8 if wf else 0.5):
             e = {"ev": nextev, "cached": r.random() < 0.3, "vars": _gen_vars(r)}
             nextev += 1
             order = list(range(n))
@@ -292,7 +293,7 @@ def generate(seed, tier):
         lid, n, wf = r.choice(lists)
         ops.append(["wrap", r.choice(["wrap_in_cse", "make_cse", "make_cse_array", "make_cse_mv",
                                       "make_cse_register"]),
-                    lid, r.randrange(n), r.choice([None, "p"]),
+                    lid, r.randrange(n) + n * r.randrange(12), r.choice([None, "p"]),
                     r.choice([None, "pymbolic_eval", "pymbolic_expr"])])
     return {"config": {"nv": nv, "fault_run": fault_run}, "ops": ops}
 
@@ -532,6 +533,50 @@ def execute(scenario, open_sigs):
                 if nested_pairs(canon(t)):
                     viol("C12/wrapper-around-wrapper", {"list": L["lid"], "index": i,
                                                         "tagger": "cse_tagger"})
+        if not nv and L.get("s2w"):
+            # "every repeated subexpression ends up in, or inside, one shared wrapper": an
+            # operation that occurs at least twice in the input -- as the very same tree,
+            # pre-existing wrappers inside it included, and with no other input tree that looks
+            # the same once wrappers are erased and operands of sums and products are put in
+            # order -- is nowhere left outside all wrappers
+            exact_of, occ_exact = {}, {}
+
+            def walk_in(c):
+                if isinstance(c, list) and c:
+                    if c[0] == "E":
+                        if _is_op(c):
+                            kx, ke = jkey(c), deep(erase(c))
+                            exact_of.setdefault(ke, set()).add(kx)
+                            occ_exact[kx] = occ_exact.get(kx, 0) + 1
+                        for f in c[2]:
+                            walk_in(f)
+                    elif c[0] == "tuple":
+                        for x in c[1]:
+                            walk_in(x)
+            if sum(len(jkey(c)) for c in L["canon"]) < 60000:
+                for c in L["canon"]:
+                    walk_in(c)
+                must_be_inside = {ke for ke, xs in exact_of.items()
+                                  if len(xs) == 1 and occ_exact[next(iter(xs))] >= 2}
+
+                def walk_out(c, i):
+                    if isinstance(c, list) and c and violation is None:
+                        if c[0] == "E":
+                            if c[1] == P + "CommonSubexpression":
+                                return           # everything below is inside a wrapper
+                            if _is_op(c) and deep(erase(c)) in must_be_inside:
+                                viol("C12/repeated-left-outside-wrappers",
+                                     {"list": L["lid"], "index": i, "node": str(erase(c))[:400]})
+                                return
+                            for f in c[2]:
+                                walk_out(f, i)
+                        elif c[0] == "tuple":
+                            for x in c[1]:
+                                walk_out(x, i)
+                if must_be_inside:
+                    probe("repeat_placement_checked")
+                    for i, t in enumerate(L["tagged"]):
+                        walk_out(canon(t), i)
         for i, t in enumerate(L["tagged"]):
             bad = []
 
@@ -746,6 +791,8 @@ def execute(scenario, open_sigs):
                             return all(only_s2(x) for x in c[1])
                     return True
                 L["s2"] = wf and all(only_s2(c) for c in L["canon"])
+                s2_classes.add(P + "CommonSubexpression")
+                L["s2w"] = all(only_s2(c) for c in L["canon"])     # ... plus wrappers
                 lists[lid] = L
                 occ = []
                 for c in L["canon"]:
@@ -766,6 +813,23 @@ def execute(scenario, open_sigs):
                 if L is None:
                     continue
                 ensure_tagged(L)
+                how = op[2] if len(op) > 2 else None
+                if how and violation is None:
+                    # the caller tags the same objects again after it has edited the list the
+                    # first call gave it: tagging is a function of its input
+                    res1 = tag_common_subexpressions(L["orig"])
+                    if how == "append":
+                        res1.append(0)
+                    elif how == "delete" and res1:
+                        del res1[0]
+                    elif res1:
+                        res1[-1] = p.Variable("edited")
+                    res2 = tag_common_subexpressions(L["orig"])
+                    want_c = [jkey(canon(t)) for t in L["tagged"]]
+                    if [jkey(canon(t)) for t in res2] != want_c:
+                        viol("C12/retag-differs", {"list": op[1], "edit": how,
+                                                   "first": len(want_c), "again": len(res2)})
+                    probe("retagged_after_edit")
                 events.append([opi, "tag", op[1], [util.digest_of(canon(t))[:10] for t in L["tagged"]]])
                 continue
             if k == "eval":
@@ -911,7 +975,7 @@ def execute(scenario, open_sigs):
                 if L is None or not L["orig"]:
                     continue
                 x = L["orig"][i % len(L["orig"])]
-                check_wrap(helper, x, prefix, scope, p, np, viol)
+                check_wrap(helper, x, prefix, scope, p, np, viol, pick=i)
                 events.append([opi, "wrap", helper])
     finally:
         sys.setprofile(None)
@@ -922,9 +986,16 @@ def execute(scenario, open_sigs):
             "states": sorted(states)[:64]}
 
 
-def check_wrap(helper, x, prefix, scope, p, np, viol):
+def check_wrap(helper, x, prefix, scope, p, np, viol, pick=0):
     """Ride-along, pure: what each helper documents about itself."""
     CSE = p.CommonSubexpression
+    # constants of every kind pymbolic accepts (booleans are constants, not numbers)
+    consts = [7, 2.5, True, False, np.bool_(True), np.int64(3), 1 + 2j, np.float32(0.5), 0]
+    k1, k2 = consts[pick % len(consts)], consts[(pick // len(consts) + 3) % len(consts)]
+    for cst in (k1, k2):
+        if helper == "make_cse" and p.make_common_subexpression(cst, prefix, scope) is not cst:
+            viol("C12/helper", {"helper": helper, "what": "constant was wrapped",
+                                "constant": repr(cst)})
 
     def made_ok(elem, r):
         if p.is_constant(elem):
@@ -983,12 +1054,13 @@ def check_wrap(helper, x, prefix, scope, p, np, viol):
         return
     if helper == "make_cse_array":
         base = np.empty(3, dtype=object)
-        base[0], base[1], base[2] = x, 7, p.Variable("q") + 1
+        base[0], base[1], base[2] = x, k1, p.Variable("q") + 1
         m = np.empty((2, 3), dtype=object)
         for i in range(2):
             for j in range(3):
                 m[i, j] = p.Variable("m")[i, j] + j
         m[0, 1] = x
+        m[1, 2] = k2
         # the same entries seen through different memory layouts: componentwise means by index
         for name, arr in (("contiguous", base), ("reversed view", base[::-1]), ("matrix", m),
                           ("transposed", m.T), ("fortran order", np.asfortranarray(m)),
@@ -1002,7 +1074,8 @@ def check_wrap(helper, x, prefix, scope, p, np, viol):
     if helper == "make_cse_mv":
         from pymbolic.geometric_algebra import MultiVector
         arr = np.empty(3, dtype=object)
-        arr[0], arr[1], arr[2] = x, 3, p.Variable("q") + 2
+        arr[0], arr[1], arr[2] = x, (k1 if not isinstance(k1, (bool, np.bool_, complex)) else 3), \
+            p.Variable("q") + 2
         mv = MultiVector(arr)
         r = p.make_common_subexpression(mv, prefix, scope)
         if not (isinstance(r, MultiVector) and set(r.data) == set(mv.data)
